@@ -252,6 +252,15 @@ def bool_facts(fn, bb, _depth=0):
                     for d, v in live:
                         out.append((v, label))
                         out.extend(bool_facts(fn, d.bb, _depth + 1))
+                elif label == 'false' and any(v[0] == 'const' and v[1].get('val') == 'false' for _, v in live):
+                    # `A && B` is false: nothing definite, but "whenever the facts under which B was evaluated hold, B is false".  Consumers that
+                    # know A from elsewhere (a later `if A { .. }`) can conclude not-B.  Encoded as (('implies', premises, B), 'false').
+                    for d, v in live:
+                        if v[0] == 'const':
+                            continue
+                        prem = tuple(bool_facts(fn, d.bb, _depth + 1))
+                        if prem:
+                            out.append((('implies', prem, v), 'false'))
             break
     return out
 
